@@ -30,7 +30,7 @@ from ..exc import ExcModel
 from ..loader import AnalysisError, FunctionInfo, walk_scope
 from ..resolve import last_attr
 from ..util import calls, dominated
-from ._g4_helpers import Env, Interp, Obj, Raised, txt
+from ._g4_helpers import Env, Interp, Obj, Raised, txt, require_count
 
 META = {
     "text": "RF-ABS: the shm allocator's transition functions (initialize/attach/allocate/free/reset) are extracted from the AST and "
@@ -253,7 +253,18 @@ def _buffer_aliases(fi: FunctionInfo) -> set[str]:
     return out
 
 
-def _model_sink(ctx: Ctx, it: Interp, aw: FunctionInfo, ctor: ast.Call, env_vals: dict[str, object], alias: str, off: int, size: int) -> None:
+def _size_calls(aw: FunctionInfo, e: ast.AST, depth: int = 0) -> set[str]:
+    """Names of the calls the allocation-size expression is computed from (through local assignments)."""
+    out = {last_attr(c) for c in ast.walk(e) if isinstance(c, ast.Call)}
+    if depth < 3:
+        for nm in {n.id for n in ast.walk(e) if isinstance(n, ast.Name)}:
+            for st in walk_scope(aw.node):
+                if isinstance(st, (ast.Assign, ast.AnnAssign)) and st.value is not None and any(isinstance(t, ast.Name) and t.id == nm for t in (st.targets if isinstance(st, ast.Assign) else [st.target])):
+                    out |= _size_calls(aw, st.value, depth + 1)
+    return out
+
+
+def _model_sink(ctx: Ctx, it: Interp, aw: FunctionInfo, ctor: ast.Call, env_vals: dict[str, object], alias: str, off: int, size: int, size_expr: ast.AST | None = None) -> None:
     """Instantiate the sink exactly as the call site does (offset/size substituted) and drive write()."""
     seg = off + 6 * size + 1000
     raw = bytearray(b"\xa5" * seg)
@@ -315,6 +326,10 @@ def _model_sink(ctx: Ctx, it: Interp, aw: FunctionInfo, ctor: ast.Call, env_vals
     why = ("The IPC stream written through it (schema message + batch + EOS) is larger than get_record_batch_size()+_STREAM_OVERHEAD for wide "
            "schemas / large schema metadata, so the write overruns into the neighbouring live batch")
     if over >= offered - size:
+        extra = (_size_calls(aw, size_expr) if size_expr is not None else set()) - {"get_record_batch_size", "len", "int", "max", "min", ""}
+        if extra:
+            raise AnalysisError(f"C28: the sink is unbounded and the allocation size is computed with {sorted(extra)}: whether that size bounds the written IPC stream "
+                                "(schema message + batch + EOS) cannot be decided statically")
         ctx.fail("RF-BOUND", "sink-write-unbounded", wfi, None,
                  f"{sink.cls.name} constructed by `{txt(ctor)}` has no upper bound tied to the allocation: allocation [{off},{off + size}) of {size} bytes, {offered} bytes offered, "
                  f"bytes up to {changed[-1]} were overwritten ({over} past the allocation; write results {events}). {why}")
@@ -338,7 +353,7 @@ def _bounded_writes(ctx: Ctx, it: Interp) -> None:
             tg = [t for t in ctx.res.resolve(aw, n.value) if t.fq == ALLOCATOR + ".allocate"]
             if tg and len(n.value.args) == 1:
                 allocs.append((n.value, n.targets[0].id, txt(n.value.args[0])))
-    ctx.require_count("RF-BOUND", len(allocs), 1, "allocator.allocate() call sites in allocate_and_write")
+    require_count(ctx, "RF-BOUND", len(allocs), 1, "allocator.allocate() call sites in allocate_and_write")
     uses: list[tuple[ast.Name, ast.AST]] = []
     for n in walk_scope(aw.node):
         if isinstance(n, ast.Name) and n.id in aliases and isinstance(n.ctx, ast.Load):
@@ -396,12 +411,12 @@ def _bounded_writes(ctx: Ctx, it: Interp) -> None:
             continue  # reading the segment length
         elif isinstance(parent, ast.Call) and name in parent.args:
             n_checked += 1
-            _model_sink(ctx, it, aw, parent, env_vals, name.id, off, size)
+            _model_sink(ctx, it, aw, parent, env_vals, name.id, off, size, acall.args[0])
         elif isinstance(parent, ast.keyword):
             raise AnalysisError("C28: segment buffer passed by keyword (unsupported shape)")
         else:
             raise AnalysisError(f"C28: unsupported use of the segment buffer: `{txt(parent) if parent is not None else name.id}`")
-    ctx.require_count("RF-BOUND", n_checked, 1, "writes into the segment buffer in allocate_and_write")
+    require_count(ctx, "RF-BOUND", n_checked, 1, "writes into the segment buffer in allocate_and_write")
 
 
 def _who_writes(ctx: Ctx) -> None:
@@ -424,7 +439,7 @@ def _who_writes(ctx: Ctx) -> None:
                     owner = owner.parent
                 if owner.cls is not None and owner.cls.fq == ALLOCATOR:
                     ctx.fail("RF-WHO", f"allocator-raw-store:{fi.qualname}", fi, n, f"`{txt(n)}` stores raw bytes through the allocator's buffer (not a table write through the packed layout)")
-    ctx.require_count("RF-WHO", n_sites, 3, "pack_into sites in shm.py")
+    require_count(ctx, "RF-WHO", n_sites, 3, "pack_into sites in shm.py")
     # nobody outside shm.py reaches the allocator's buffer or stores into a segment buffer
     bad = 0
     for mod in ctx.repo.modules_with_text("_allocator") + ctx.repo.modules_with_text(".buf"):
